@@ -489,6 +489,13 @@ class SymInt(object):
         raise Unsupported("<< by symbolic amount")
 
     def __rlshift__(self, o):
+        # shift by a symbolic amount: decided by case split over 0..63 (bit positions)
+        if isinstance(o, int):
+            st = get_state()
+            if st is not None:
+                for k in range(64):
+                    if bool(_lift(self.e == k)):
+                        return o << k
         raise Unsupported("<< by symbolic amount")
 
 
